@@ -61,7 +61,11 @@ def replay_case(chk, payload, prefixes):
     rp = payload["replay"]
     case, flat = C.make_case(1, rp["prog"], [rp["cfg"]], [rp["fault"]])
     row = drive.run_case({"prog": rp["prog"], "flat": flat, "cfg": rp["cfg"], "fault": rp["fault"], "fault_kind": rp.get("fault_kind", "exc")})
-    jr = stage.judge_row(1, case["prog"], case["cfgs"][0], row)
+    base = None
+    if any(rp["fault"]):
+        brow = drive.run_case({"prog": rp["prog"], "flat": flat, "cfg": rp["cfg"], "fault": [0, 0]})
+        base = stage.base_of(brow)
+    jr = stage.judge_row(1, case["prog"], case["cfgs"][0], row, base=base)
     verdicts = trace.judge_rows(chk, "Run_Trace", [jr], chunks=1)
     chk.impl_traces = 1
     chk.sample({"replayed": rp})
